@@ -105,7 +105,8 @@ fn pool() -> Vec<Value> {
         dec("0"), dec("1"), dec("-1"), dec("2.5"), dec("0.5"), dec("1.0000000000000000000000000001"),
         Value::Decimal(Decimal::MAX), Value::Decimal(Decimal::MIN),
         Value::Bool(true), Value::Bool(false),
-        Value::String(String::new()), Value::String("1".into()), Value::String("true".into()), Value::String(" Ab ".into()),
+        Value::String(String::new()), Value::String(" ".into()), Value::String("\t\n ".into()), Value::String("\u{3000}\u{a0}".into()),
+        Value::String(" é ".into()), Value::String("1".into()), Value::String("true".into()), Value::String(" Ab ".into()),
         Value::String("2015-07-30T03:26:13Z".into()), Value::String("i1".into()),
         dt(0), dt(1438226773), dt(8210266876799), dt(-8334601228800),
         dur(0), dur(1), dur(-1), dur(i64::MAX / 1000), dur(-(i64::MAX / 1000)), dur(604800),
@@ -494,7 +495,44 @@ fn family_ruleset() {
         }
     }
     check_scenario(&mut rep, "empty", &tags, vec![], &syms, &facts);
-    // Serialize entry point: same outcomes as the serialized value; fails only when serialization fails
+    // Serialize entry point: evaluate(&input) == evaluate_value(&serialized input) for inputs of every shape
+    {
+        use reval::value::ser::ValueSerializer;
+        use serde::Serialize;
+        #[derive(serde::Serialize)] struct U;
+        #[derive(serde::Serialize)] struct S2 { x: i8, y: Option<u8> }
+        let rules: Vec<Expr> = vec![Expr::reff("facts"), Expr::none(Expr::reff("facts")), Expr::reff("x"), Expr::index(Expr::reff("facts"), Index::Map("x".into())),
+                                    Expr::index(Expr::reff("facts"), Index::Vec(0)), Expr::some(Expr::reff("y"))];
+        let mut b = ruleset();
+        for (i, e) in rules.iter().enumerate() { b = b.with_rule(Rule::new(format!("r{i}"), BTreeMap::new(), e.clone())).unwrap(); }
+        let rs = b.build();
+        macro_rules! same {
+            ($what:expr, $input:expr) => {{
+                rep.cases += 1;
+                let input = $input;
+                let via_value = input.serialize(ValueSerializer).map(|v| block_on(rs.evaluate_value(&v)).map(|os| os.iter().map(|o| match &o.value { Ok(v) => Ok(v.clone()), Err(e) => Err(classify(e)) }).collect::<Vec<RRes>>()));
+                let direct = catch_unwind(AssertUnwindSafe(|| block_on(rs.evaluate(&input)).map(|os| os.iter().map(|o| match &o.value { Ok(v) => Ok(v.clone()), Err(e) => Err(classify(e)) }).collect::<Vec<RRes>>())));
+                match (direct, via_value) {
+                    (Err(_), _) => rep.fail(&["C09"], "evaluate.serialize", $what, "PANIC", "outcomes or an error"),
+                    (Ok(Ok(a)), Ok(Ok(b))) => if a.len() != b.len() || !a.iter().zip(&b).all(|(x, y)| same_res(x, y)) {
+                        rep.fail(&["C09"], "evaluate.serialize", &format!("evaluate(&{}) vs evaluate_value(serialized)", $what), &format!("{a:?}"), &format!("{b:?}")); },
+                    (Ok(Err(_)), Err(_)) => {}
+                    (Ok(a), b) => rep.fail(&["C09"], "evaluate.serialize", $what, &format!("{:?}", a.map(|v| v.len()).map_err(|e| e.to_string())), &format!("{:?}", b.map(|r| r.map(|v| v.len()).map_err(|e| e.to_string())).map_err(|e| e.to_string()))),
+                }
+            }};
+        }
+        same!("()", ());
+        same!("None::<u8>", Option::<u8>::None);
+        same!("Some(3u8)", Some(3u8));
+        same!("unit struct", U);
+        same!("5u8", 5u8);
+        same!("\"s\"", "s");
+        same!("vec![1,2]", vec![1u8, 2]);
+        same!("S2{x:-1,y:None}", S2 { x: -1, y: None });
+        same!("S2{x:1,y:Some(2)}", S2 { x: 1, y: Some(2) });
+        same!("u128::MAX", u128::MAX);
+        same!("empty map", BTreeMap::<String, u8>::new());
+    }
     {
         #[derive(serde::Serialize)]
         struct In { x: u8 }
@@ -677,14 +715,33 @@ fn family_convert() {
     roundtrip!(Decimal, [Decimal::MAX, Decimal::MIN, "1.10".parse::<Decimal>().unwrap()]);
     roundtrip!(DateTime<Utc>, [DateTime::from_timestamp(0, 0).unwrap(), DateTime::<Utc>::MIN_UTC, DateTime::<Utc>::MAX_UTC]);
     roundtrip!(TimeDelta, [TimeDelta::MAX, TimeDelta::MIN, TimeDelta::zero()]);
-    // lists / maps: succeed exactly when every element converts
-    for k in 0..3 {
+    // lists / maps: succeed exactly when every element converts (a non-convertible element of every kind at every position)
+    for bad in pool() {
+        if matches!(bad, Value::Int(_)) { continue; }
+        for k in 0..3 {
+            rep.cases += 3;
+            let mut items = vec![Value::Int(1), Value::Int(2), Value::Int(3)];
+            items[k] = bad.clone();
+            if Vec::<i64>::try_from(Value::Vec(items.clone())).is_ok() { rep.fail(&["C17"], "vec.elements", &format!("Vec::<i64>::try_from({:?})", items), "Ok", "Err"); }
+            let m: BTreeMap<String, Value> = ["a", "b", "c"].iter().zip(items).map(|(k, v)| (k.to_string(), v)).collect();
+            if BTreeMap::<String, i64>::try_from(Value::Map(m.clone())).is_ok() { rep.fail(&["C17"], "map.elements", &format!("BTreeMap::<String,i64>::try_from({:?})", m), "Ok", "Err"); }
+            if std::collections::HashMap::<String, i64>::try_from(Value::Map(m.clone())).is_ok() { rep.fail(&["C17"], "map.elements", &format!("HashMap::<String,i64>::try_from({:?})", m), "Ok", "Err"); }
+        }
+    }
+    // all-convertible collections keep every entry, in order
+    rep.cases += 3;
+    let full: BTreeMap<String, Value> = [("a", 1), ("b", 2), ("c", 3)].iter().map(|(k, v)| (k.to_string(), Value::Int(*v))).collect();
+    match BTreeMap::<String, i64>::try_from(Value::Map(full.clone())) { Ok(m) if m.len() == 3 && m["b"] == 2 => {}, r => rep.fail(&["C17"], "map.roundtrip", "BTreeMap::<String,i64>::try_from({a:1,b:2,c:3})", &format!("{r:?}"), "Ok with 3 entries") }
+    match std::collections::HashMap::<String, Value>::try_from(Value::Map(full.clone())) { Ok(m) if m.len() == 3 => {}, r => rep.fail(&["C17"], "map.roundtrip", "HashMap::<String,Value>::try_from({a:1,b:2,c:3})", &format!("{:?}", r.map(|m| m.len())), "Ok with 3 entries") }
+    match Vec::<i64>::try_from(Value::Vec(vec![Value::Int(3), Value::Int(1), Value::Int(2)])) { Ok(v) if v == vec![3, 1, 2] => {}, r => rep.fail(&["C17"], "vec.roundtrip", "Vec::<i64>::try_from([3,1,2])", &format!("{r:?}"), "Ok([3,1,2])") }
+    // usize at the top of its range
+    for x in [0usize, 1, i64::MAX as usize, i64::MAX as usize + 1, usize::MAX] {
         rep.cases += 1;
-        let mut items = vec![Value::Int(1), Value::Int(2), Value::Int(3)];
-        items[k] = Value::String("x".into());
-        if Vec::<i64>::try_from(Value::Vec(items.clone())).is_ok() { rep.fail(&["C17"], "vec.elements", &format!("Vec::<i64>::try_from({:?})", items), "Ok", "Err"); }
-        let m: BTreeMap<String, Value> = ["a", "b", "c"].iter().zip(items).map(|(k, v)| (k.to_string(), v)).collect();
-        if BTreeMap::<String, i64>::try_from(Value::Map(m.clone())).is_ok() { rep.fail(&["C17"], "map.elements", &format!("BTreeMap::<String,i64>::try_from({:?})", m), "Ok", "Err"); }
+        if !matches!(Value::from(x), Value::Int(i) if i == x as i128) { rep.fail(&["C17"], "from_usize.exact", &format!("Value::from({x}usize)"), &format!("{:?}", Value::from(x)), &format!("Int({x})")); }
+    }
+    for x in [f32::MAX, f32::MIN_POSITIVE, 0.1f32, -0.0] {
+        rep.cases += 1;
+        if !matches!(Value::from(x), Value::Float(f) if f.to_bits() == (x as f64).to_bits()) { rep.fail(&["C17"], "from_f32.exact", &format!("Value::from({x}f32)"), &format!("{:?}", Value::from(x)), "exact widening"); }
     }
     rep.cases += 1;
     match Vec::<u8>::try_from(Value::from(vec![1u8, 2, 255])) { Ok(v) if v == vec![1, 2, 255] => {}, r => rep.fail(&["C17"], "vec.roundtrip", "Vec::<u8>::try_from(Value::from(vec![1,2,255]))", &format!("{r:?}"), "Ok([1,2,255])") }
@@ -707,6 +764,29 @@ mod ser_cases {
         fn serialize<S: serde::Serializer>(&self, _s: S) -> Result<S::Ok, S::Error> { Err(serde::ser::Error::custom("boom")) }
     }
     #[derive(Serialize)] pub struct HasFails { pub ok: u8, pub bad: Fails }
+    pub struct DupKeys;
+    impl Serialize for DupKeys {
+        fn serialize<S: serde::Serializer>(&self, s: S) -> Result<S::Ok, S::Error> {
+            use serde::ser::SerializeMap;
+            let mut m = s.serialize_map(Some(3))?;
+            m.serialize_entry("k", &1u8)?;
+            m.serialize_entry("j", &7u8)?;
+            m.serialize_entry("k", &2u8)?;
+            m.end()
+        }
+    }
+    pub struct DupKeysSplit;
+    impl Serialize for DupKeysSplit {
+        fn serialize<S: serde::Serializer>(&self, s: S) -> Result<S::Ok, S::Error> {
+            use serde::ser::SerializeMap;
+            let mut m = s.serialize_map(None)?;
+            m.serialize_key("k")?; m.serialize_value(&1u8)?;
+            m.serialize_key("k")?; m.serialize_value(&2u8)?;
+            m.end()
+        }
+    }
+    #[derive(Serialize)] pub struct Base { pub retries: u8, pub name: String }
+    #[derive(Serialize)] pub struct Over { #[serde(flatten)] pub base: Base, pub retries: u8 }
     pub fn int_key_map() -> BTreeMap<u8, u8> { [(1u8, 2u8)].into_iter().collect() }
     pub fn str_key_map() -> HashMap<String, i32> { [("k".to_string(), -5)].into_iter().collect() }
 }
@@ -765,6 +845,11 @@ fn family_ser() {
     case!("struct variant", En::S { k: 4 }, Ok(map(vec![("S", map(vec![("k", Value::Int(4))]))])));
     case!("string-keyed map", str_key_map(), Ok(map(vec![("k", Value::Int(-5))])));
     case!("int-keyed map", int_key_map(), Err(()));
+    // a key emitted twice: the later value wins (as in serde_json), on both the entry and the key/value path
+    case!("duplicate key via serialize_entry", DupKeys, Ok(map(vec![("j", Value::Int(7)), ("k", Value::Int(2))])));
+    case!("duplicate key via serialize_key/value", DupKeysSplit, Ok(map(vec![("k", Value::Int(2))])));
+    case!("flattened struct overridden by outer field", Over { base: Base { retries: 1, name: "n".into() }, retries: 5 },
+          Ok(map(vec![("name", Value::String("n".into())), ("retries", Value::Int(5))])));
     case!("failing Serialize", Fails, Err(()));
     case!("failing field", HasFails { ok: 1, bad: Fails }, Err(()));
     case!("failing element", vec![Some(Big { v: 1 }), Some(Big { v: u128::MAX })], Err(()));
@@ -815,6 +900,27 @@ fn family_parse(deep: bool) {
               format!("a.{huge}.{huge}"), format!("[i1].{huge}"), format!("a.18446744073709551615"), format!("a.18446744073709551616"),
               format!("@name: i{huge}; x"), format!("@k: [i{huge}]; x"), format!("// r\n@m: {{a: d{huge}}}; x")] {
         try_parse(&mut rep, &t);
+    }
+    // numerals of every length in every numeric position (mantissa / fraction / exponent / index)
+    for k in 1..=45usize {
+        let nines = "9".repeat(k);
+        let zeros = "0".repeat(k);
+        for t in [format!("i{nines}"), format!("i-{nines}"), format!("d{nines}"), format!("d-{nines}"), format!("d0.{nines}"), format!("d0.{zeros}1"),
+                  format!("d{nines}.{nines}"), format!("d.{nines}"), format!("f{nines}"), format!("f0.{zeros}1"), format!("f1e{nines}"),
+                  format!("0x{}", "f".repeat(k)), format!("0o{}", "7".repeat(k * 2)), format!("0b{}", "1".repeat(k * 3)), format!("a.{nines}"),
+                  format!("[i1, d0.{zeros}1]"), format!("@m: d0.{zeros}1; x")] {
+            try_parse(&mut rep, &t);
+        }
+    }
+    // text the lexer rejects, followed by k ASCII bytes and then multi-byte characters (error paths that quote the input)
+    for bad in ["#", "$", "?", "\"", "é", "~", "`", "\\"] {
+        for k in 0..24usize {
+            for tail in ["é", "ééé", "𝔘", "\u{7ff}\u{800}"] {
+                try_parse(&mut rep, &format!("i1 + {bad}{}{tail} + i2", "a".repeat(k)));
+                try_parse(&mut rep, &format!("{bad}{}{tail}", "a".repeat(k)));
+                try_parse(&mut rep, &format!("// r\n@k: {bad}{}{tail}; x", " ".repeat(k)));
+            }
+        }
     }
     // escapes: every single-character escape, unicode forms, truncated forms
     for c in 0u8..128 {
